@@ -49,6 +49,11 @@ def configs(tier, seed):
                 if f == 0:
                     out.append(_cfg('wide', s, n, f, 'trunc', 'pyint', raw=False))
                 out.append(_cfg('wide_period', s, n, f, 'trunc', 'pyint', raw=True))
+    # a wrapping object re-formatted in place (sign flip and / or wider word, same fraction length): the code is wrapped into the new word
+    for (s, n, f) in [(True, 8, 0), (False, 8, 0), (True, 5, 2), (False, 6, 3), (True, 16, 8)] + (C.pick([q for q in C.formats_core() if q[1] <= 24], 40, rng) if tier == 'thorough' else []):
+        for (s2, dn) in ((not s, 0), (not s, 4), (s, 3), (not s, -2)):
+            if n + dn >= 1:
+                out.append(_cfg('reformat', s, n, f, 'trunc', 'code', s2=s2, n2=n + dn, how=rng.choice(('partial', 'full', 'dtype'))))
     # arithmetic results stored with wrap into an `out` object of the operands' format: n_word-bit register
     regs = [(True, 8, 0), (False, 8, 0), (True, 5, 2), (False, 13, 13), (True, 16, 8), (True, 26, 0)]
     if tier == 'thorough':
@@ -60,7 +65,7 @@ def configs(tier, seed):
 
 
 def cost(cfg):
-    return {'wide_period': 100, 'wide': 30, 'period': 5, 'register': 2}.get(cfg['part'], 1)
+    return {'reformat': 1, 'wide_period': 100, 'wide': 30, 'period': 5, 'register': 2}.get(cfg['part'], 1)
 
 
 def inputs(cfg):
@@ -96,6 +101,8 @@ def inputs(cfg):
             sp['j'] = dict(kind='int', lo=-(1 << 64), hi=(1 << 64))
         return sp
     lo, hi = SP.limits(s, n)
+    if p == 'reformat':
+        return {'a': dict(kind='int', lo=lo, hi=hi)}
     return {'a': dict(kind='int', lo=lo, hi=hi), 'b': dict(kind='int', lo=lo, hi=hi)}
 
 
@@ -152,6 +159,17 @@ def run(F, cfg, inp):
         v2 = _second(cfg, inp)
         y.set_val(v2, raw=cfg.get('raw', False))
         return dict(val=O.snap(x.val), val2=O.snap(y.val))
+    if p == 'reformat':
+        x = mk()
+        x.set_val(inp['a'], raw=True)
+        s2, n2 = cfg['s2'], cfg['n2']
+        if cfg['how'] == 'partial':
+            x.resize(**{k_: v_ for k_, v_, old in (('signed', s2, s), ('n_word', n2, n)) if v_ != old})
+        elif cfg['how'] == 'full':
+            x.resize(s2, n2, f)
+        else:
+            x.resize(dtype=C.fmt_str(s2, n2, f))
+        return dict(val=O.snap(x.val), fmt=C.fmt_of(x))
     # operands are ordinary (saturating) objects holding in-range codes; only the destination register wraps
     x, y, out = F.Fxp(None, s, n, f), F.Fxp(None, s, n, f), mk()
     x.set_val(inp['a'], raw=True)
@@ -176,6 +194,11 @@ def post(cfg, inp, ob):
         if p == 'wide':
             out.append(('extended_prec', ob['status'].get('extended_prec') is True))
         return out
+    if p == 'reformat':
+        s2, n2 = cfg['s2'], cfg['n2']
+        lo2, hi2 = SP.limits(s2, n2)
+        return [('new_format', ob['fmt'] == [s2, n2, f]), ('in_range_of_new_word', SP.AND(T.icmp(q, lo2, '>='), T.icmp(q, hi2, '<='))),
+                ('code_wrapped_into_new_word', T.icmp(q, SP.OVERFLOW(inp['a'], s2, n2, 'wrap'), '=='))]
     if p in ('period', 'wide_period'):
         return [('in_range', inr), ('same_code_after_shift_by_period', T.icmp(q, O.cells(ob['val2'])[0], '=='))]
     a, b = inp['a'], inp['b']
